@@ -1,7 +1,8 @@
 (* C07 - transaction byte offsets point at the decoded components.
 
    Model of the offset extractors of ledger/common/streaming_decode.go and
-   ledger/common/common.go AFTER fixes/C07-measure-array-headers.patch (every
+   ledger/common/common.go AFTER fixes/C07-measure-array-headers.patch and
+   fixes/C07-witness-set-tag-wrappers.patch (every
    site that assumed `cborArrayHeaderSize(len(x))` now measures the header with
    `cborArrayHeaderSizeOf(data, len(x))`).  The pinned tree's behaviour is kept
    as the `assumed = true` variant of the same definitions (used for the
@@ -221,6 +222,36 @@ Fixpoint lookup_last {V} (k : N) (l : list (N * V)) : option V :=
   end.
 
 (* ---- witness-set components -------------------------------------------- *)
+(* fxamacker skips tag numbers when the destination is not a tag type *)
+Fixpoint strip_tags (i : item) : item := match i with Tag _ _ x => strip_tags x | _ => i end.
+(* Decode(&[]RawMessage) through tag wrappers (Conway sets: 258([...])) *)
+Definition dec_raw_list_t (bs : bytes) : option (list bytes * nat) :=
+  match parse_full bs with
+  | Ok i rest => match strip_tags i with Arr _ xs => Some (map enc xs, consumed bs rest) | _ => None end
+  | _ => None
+  end.
+
+(* cborSkipTags (added by fixes/C07-witness-set-tag-wrappers.patch): the data
+   after any leading tag headers, and the number of bytes skipped *)
+Definition tag_hdr_size (ai : N) : nat :=
+  if ai <? 24 then 1%nat else if ai =? 24 then 2%nat else if ai =? 25 then 3%nat
+  else if ai =? 26 then 5%nat else if ai =? 27 then 9%nat else 0%nat.
+Fixpoint skip_tags (fuel : nat) (data : bytes) : bytes * nat :=
+  match fuel with
+  | O => (data, 0%nat)
+  | S fu =>
+    match data with
+    | b :: _ =>
+        if b / 32 =? 6 then
+          let size := tag_hdr_size (b mod 32) in
+          if Nat.eqb size 0 then (data, 0%nat)
+          else if Nat.ltb (length data) size then (data, 0%nat)
+          else let '(d, k) := skip_tags fu (skipn size data) in (d, (size + k)%nat)
+        else (data, 0%nat)
+    | [] => (data, 0%nat)
+    end
+  end.
+
 (* extractDatumOffsets *)
 Definition datum_step (base : nat) (hs pos : nat) (rest : bytes) : step_res range :=
   match sd_skip rest with
@@ -228,18 +259,26 @@ Definition datum_step (base : nat) (hs pos : nat) (rest : bytes) : step_res rang
   | Some (len, r) => Next [((base + hs + pos)%nat, len)] len r
   end.
 Definition datum_offsets (data : bytes) (base : nat) : list range :=
-  match data with [] => [] | _ => run_scan 4 data (datum_step base) end.
+  match data with
+  | [] => []
+  | _ => let '(inner, ts) := skip_tags (length data) data in run_scan 4 inner (datum_step (base + ts)%nat)
+  end.
 
-(* extractScriptArrayOffsets: Decode(&[]RawMessage), header from 0x9f / cborArrayInfo (0 when invalid) *)
+(* extractScriptArrayOffsets: Decode(&[]RawMessage), tag headers skipped, header
+   from 0x9f / cborArrayInfo (0 when invalid) *)
 Definition script_offsets (data : bytes) (base : nat) : list range :=
   match data with
   | [] => []
-  | b0 :: _ =>
-      match dec_raw_list data with
+  | _ =>
+      match dec_raw_list_t data with
       | None => []
       | Some (scripts, _) =>
-          let hs := if b0 =? 159 then 1%nat else snd (fst (cbor_array_info data)) in
-          walk (base + hs)%nat scripts
+          let '(inner, ts) := skip_tags (length data) data in
+          let hs := match inner with
+                    | b0 :: _ => if b0 =? 159 then 1%nat else snd (fst (cbor_array_info inner))
+                    | [] => 0%nat
+                    end in
+          walk (base + (ts + hs))%nat scripts
       end
   end.
 
